@@ -10,6 +10,7 @@
 #include <sys/wait.h>
 #include <csignal>
 #include <climits>
+#include <sstream>
 #include <algorithm>
 
 using namespace dsplib;
@@ -243,6 +244,21 @@ int main(int argc, char** argv) {
                 CASE("slice_neg", {cnt, rl}, [=] { arr_cmplx x = C(n); if (cnt > 0) { x.slice(cnt - 1, 0, -1) = C(rl); } sink(x); });
             }
         }
+    }
+    // ---- slice requests at the boundaries, read and written; p = <<n, i1, i2>> with the step carried in the entry name
+    for (int n : {1, 2, N}) {
+        const int ix[] = {-n - 1, -n, -1, 0, 1, n - 1, n, n + 1};
+        for (int i1 : ix) {
+            for (int i2 : ix) {
+                CASE("slice_m1", {n, i1, i2}, [=] { arr_real x = R(n); sink(arr_real(x.slice(i1, i2, -1))); x.slice(i1, i2, -1) = 7.0; sink(x); });
+                CASE("slice_m2", {n, i1, i2}, [=] { arr_cmplx x = C(n); sink(arr_cmplx(x.slice(i1, i2, -2))); x.slice(i1, i2, -2) = cmplx_t(7, 1); sink(x); });
+                CASE("slice_p1", {n, i1, i2}, [=] { const arr_real x = R(n); sink(arr_real(x.slice(i1, i2, 1))); });
+                CASE("slice_p2", {n, i1, i2}, [=] { arr_real x = R(n); x.slice(i1, i2, 2) = x.slice(i1, i2, 2); sink(x); });
+            }
+        }
+    }
+    for (int n : {0, 1, 2, 3}) {   // printing, incl. the empty array
+        CASE("print", {n}, [=] { std::ostringstream os; os << R(n) << " " << C(n); g_sink = (double)os.str().size(); });
     }
     // ---- transforms on every small length and a few large ones; primes at the word boundaries
     for (int n : {1, 2, 3, 4, 5, 6, 7, 8, 9, 12, 16, 41, 43, 64, 100}) {
